@@ -27,9 +27,10 @@ HARNESSES.append(dict(COMMON, name="parse_bytes", entry="h_parse_bytes", encoded
 HARNESSES.append(dict(COMMON, name="indexes_types", entry="h_indexes_types", defines={"HWLOC_VERIF_SYNTHETIC_MAX_DEPTH": 8}, encoded=PARSE, tiers={"quick": {}, "thorough": {}}, unwind=20, unwindset=dict(init_uw(24), **{"hwloc_synthetic_process_indexes.0": 24, "hwloc_synthetic_process_indexes.1": 24, "hwloc_synthetic_process_indexes.2": 24, "hwloc_synthetic_process_indexes.3": 24, "hwloc_synthetic_process_indexes.4": 24, "hwloc_synthetic_process_indexes.5": 24, "hwloc_synthetic_process_indexes.6": 24, "hwloc_synthetic_process_indexes.7": 24, "h_indexes_types.0": 6, "h_indexes_types.1": 6, "h_indexes_types.2": 6, "h_indexes_types.3": 6, "indexes_case.0": 40, "indexes_case.1": 6, "indexes_case.2": 6, "indexes_case.3": 6, "indexes_case.4": 20, "indexes_case.5": 20, "strlen.0": 64, "strchr.0": 70}),
                       bounds="pack:2 numa:2 core:2 pu:2(indexes=T1:T2:T3) with every choice of T1,T2,T3 among pack/numa/core (27 strings incl. invalid duplicates), chosen symbolically among concretely built texts", cost=60, object_bits=13))
 _it = [h for h in HARNESSES if h["name"] == "indexes_types"][0]
-for _m, _nm, _bd in ((0, "list", "pu:3(indexes=a,b,c) for every a,b,c in 0..3 (64 texts incl. every pattern of duplicates)"), (1, "loops", "pu:4(indexes=S1*N1:S2*N2[:1*2147483648]) with steps 1/2 and counts 1/2/4/2147483648 (128 texts incl. widths that do not match, duplicates, and products that overflow 64 bits)")):
+for _m, _nm, _bd in ((0, "list", "pu:3(indexes=a,b,c) for every a,b,c in 0..3 (64 texts incl. every pattern of duplicates)"), (1, "loops", "pu:4(indexes=S1*N1:S2*N2[:1*2147483648]) with steps 1/2 and counts among 2/4/2147483648 x 2/2147483648 (48 texts; thorough: 1/2/4/2147483648 for both, 128 texts) incl. widths that do not match, duplicates, and products that overflow 64 bits)")):
     HARNESSES.append(dict(_it, name="indexes_values_" + _nm, entry="h_indexes_values", defines={"HWLOC_VERIF_SYNTHETIC_MAX_DEPTH": 8, "IVMODE": _m}, encoded=PARSE + ["hwloc_synthetic_process_indexes (explicit lists, numeric interleaving)", "hwloc_synthetic_indexes_have_duplicates", "strtol/strtoul (model)", "qsort (model)"],
-                          unwindset=dict(_it["unwindset"], **{"h_indexes_values.0": 6, "h_indexes_values.1": 6, "h_indexes_values.2": 6, "h_indexes_values.3": 6, "h_indexes_values.4": 6, "values_case.0": 6, "values_case.1": 6, "values_case.2": 6, "values_case.3": 6, "values_case.4": 6, "put.0": 16, "qsort.0": 8, "qsort.1": 8, "hwloc_synthetic_indexes_have_duplicates.0": 8, "vp_strto.0": 4, "vp_strto.1": 14}),
+                          unwindset=dict(_it["unwindset"], **{"h_indexes_values.0": 6, "h_indexes_values.1": 6, "h_indexes_values.2": 6, "h_indexes_values.3": 6, "h_indexes_values.4": 6, "values_case.0": 6, "values_case.1": 6, "values_case.2": 6, "values_case.3": 6, "values_case.4": 6, "put.0": 16, "qsort.0": 8, "qsort.1": 8, "hwloc_synthetic_indexes_have_duplicates.0": 8, "vp_strto.0": 4, "vp_strto.1": 14, "strcspn.0": 100, "strcspn.1": 100, "strspn.0": 100, "strspn.1": 100, "strchr.0": 100, "strlen.0": 100}),
+                          tiers={"quick": {}, "thorough": {"defines": {"IVN1": 4, "IVN2": 4}, "timeout": 3000}},
                           bounds=_bd + ", chosen symbolically among concretely built texts; asserted: accepted or -1/EINVAL (no abort), the indexes kept are pairwise distinct (the level keeps its arity) and are the ones written", cost=90))
 HARNESSES.append(dict(COMMON, name="export_cursor", entry="h_export_cursor", defines={"HWLOC_VERIF_SYNTHETIC_MAX_DEPTH": 8}, unwind=68,
                       encoded=["hwloc_topology_export_synthetic", "hwloc__export_synthetic_obj", "hwloc__export_synthetic_obj_attr", "hwloc__export_synthetic_indexes", "hwloc__export_synthetic_memory_children", "hwloc__export_synthetic_add_char", "hwloc__export_synthetic_update_status", "hwloc_check_memory_symmetric"],
